@@ -2874,8 +2874,11 @@ func (a *Association) processSelectiveAck(selectiveAckChunk *chunkSelectiveAck) 
 			//        ambiguous whether the reply was for the first instance of the
 			//        chunk or for a later instance)
 			if sna32GTE(chunkPayload.tsn, a.minTSN2MeasureRTT) {
-				// Only original transmissions for classic RTT measurement (Karn's rule)
-				if chunkPayload.nSent == 1 {
+				// Only original transmissions for classic RTT measurement (Karn's rule).
+				// An abandoned chunk is covered by the cumulative ack because the peer
+				// was told to skip it: it may never have arrived, and the time since it
+				// was sent measures the retransmission timer, not the round trip.
+				if chunkPayload.nSent == 1 && !chunkPayload.abandoned() {
 					a.minTSN2MeasureRTT = a.myNextTSN
 					rtt := now.Sub(chunkPayload.since).Seconds() * 1000.0
 					srtt := a.rtoMgr.setNewRTT(rtt)
